@@ -3258,7 +3258,10 @@ func (bc *Blockchain) GetTestHistoricVM(t trigger.Type, tx *transaction.Transact
 		if height, mtb := bc.BlockHeight(), bc.GetMaxTraceableBlocks(); height > mtb && b.Index < height-mtb {
 			return nil, fmt.Errorf("state for height %d is outdated and removed from the storage", b.Index)
 		}
-		mode |= mpt.ModeGCFlag
+		// Nodes are stored with the reference counting suffix in this mode, but
+		// GC flag must not be set for reading: historic states consist of nodes
+		// that are already inactive (replaced by newer ones), yet still stored.
+		mode |= mpt.ModeLatest
 	}
 	if b.Index < 1 || b.Index > bc.BlockHeight()+1 {
 		return nil, fmt.Errorf("unsupported historic chain's height: requested state for %d, chain height %d", b.Index, bc.blockHeight)
